@@ -56,7 +56,36 @@ func c11Gen(t *rapid.T) C11Case {
 	n := rapid.IntRange(6, 40).Draw(t, "actions")
 	el := 0
 	for i := 0; i < n; i++ {
-		a := C11Action{Kind: weighted(t, "kind", []int{4, 8, 4, 3, 2, 0, 0, 2}), Who: rapid.IntRange(0, 11).Draw(t, "who")}
+		a := C11Action{Kind: weighted(t, "kind", []int{4, 8, 4, 3, 2, 0, 0, 2, 2}), Who: rapid.IntRange(0, 11).Draw(t, "who")}
+		if a.Kind == 8 {
+			// scripted adversary: a client waiting for two lists is woken for the second one, but by the time it looks
+			// again the first one has elements too; it is served from the first and leaves. Whoever else waits for
+			// the second list (and for the first, if more is left there) must not be forgotten.
+			k1, k2 := "q1", "q2"
+			if rapid.Bool().Draw(t, "swap") {
+				k1, k2 = "q3", "q1"
+			}
+			w := rapid.IntRange(0, c.Blockers-1).Draw(t, "mw")
+			w2 := (w + 1) % c.Blockers
+			c.Actions = append(c.Actions,
+				C11Action{Kind: 0, Who: w, Argv: kit.A(pick(t, "mb", []string{"BLPOP", k1, k2, "0"}, []string{"BRPOP", k1, k2, "0"}, []string{"BLMPOP", "0", "2", k1, k2, "LEFT"})...)},
+				C11Action{Kind: 5, Who: w},
+				C11Action{Kind: 0, Who: w2, Argv: kit.A(pick(t, "mb2", []string{"BLPOP", k2, "0"}, []string{"BLMOVE", k2, "out", "LEFT", "RIGHT", "0"}, []string{"BRPOP", k2, k1, "0"})...)},
+				C11Action{Kind: 5, Who: w2})
+			if c.Blockers > 2 && rapid.Bool().Draw(t, "third") {
+				w3 := (w + 2) % c.Blockers
+				c.Actions = append(c.Actions, C11Action{Kind: 0, Who: w3, Argv: kit.A("BLPOP", pick(t, "k3", k1, k2), "0")}, C11Action{Kind: 5, Who: w3})
+			}
+			c.Actions = append(c.Actions, C11Action{Kind: 2, Argv: kit.A("RPUSH", k2, "e"+strconv.Itoa(el))})
+			el++
+			push1 := []string{"RPUSH", k1}
+			for j := rapid.IntRange(1, 3).Draw(t, "n1"); j > 0; j-- {
+				push1 = append(push1, "e"+strconv.Itoa(el))
+				el++
+			}
+			c.Actions = append(c.Actions, C11Action{Kind: pick(t, "how1", 2, 2, 7), Argv: kit.A(push1...)}, C11Action{Kind: 6, Who: w})
+			continue
+		}
 		if a.Kind == 4 {
 			// scripted adversary: a waiter goes to sleep, is woken by a push, and a competing consumer
 			// takes the element before the waiter retries; then more pushes follow
